@@ -340,10 +340,13 @@ impl World {
             Kind::In { width } => {
                 let port = ctx.get(2) as u16;
                 let v = self.cpu.port_in(width, port) as u64;
-                let old = ctx.get(0);
+                // the bits of RAX above the access width are not written by the instruction; the
+                // compiler treats them as clobbered, so the simulator fills them with garbage to
+                // make a wrong-width read visible
+                let junk = crate::prng::mix2(port as u64, v ^ 0x5a5a);
                 let nv = match width {
-                    1 => (old & !0xff) | v,
-                    2 => (old & !0xffff) | v,
+                    1 => (junk & !0xff) | v,
+                    2 => (junk & !0xffff) | v,
                     _ => v,
                 };
                 ctx.set(0, nv);
